@@ -1,0 +1,60 @@
+//go:build verif
+
+package proxy
+
+import (
+	"context"
+	"crypto/tls"
+	"time"
+
+	"github.com/fabiolb/fabio/config"
+	"github.com/fabiolb/fabio/route"
+
+	"google.golang.org/grpc"
+)
+
+// Exports for the verification harness (property C16).  Nothing here changes the
+// behaviour of the code under test: the pool is the real grpcConnectionPool, built
+// with the same fields as newGrpcConnectionPool but without the background
+// goroutine, so that the harness decides when the body of cleanup() runs.
+
+type VerifC16Pool struct{ p *grpcConnectionPool }
+
+// VerifC16NewPool builds a pool whose cleanup loop is not started and whose
+// cleanupInterval is so long that a cleanup() goroutine started by Tick runs the
+// loop body exactly once within the life of the harness.
+func VerifC16NewPool(tlscfg *tls.Config, cfg *config.Config) *VerifC16Pool {
+	return &VerifC16Pool{&grpcConnectionPool{
+		connections:     make(map[string]*grpc.ClientConn),
+		cleanupInterval: 24 * time.Hour,
+		tlscfg:          tlscfg,
+		cfg:             cfg,
+	}}
+}
+
+func (v *VerifC16Pool) Get(ctx context.Context, t *route.Target) (*grpc.ClientConn, error) {
+	return v.p.Get(ctx, t)
+}
+
+func (v *VerifC16Pool) Set(t *route.Target, c *grpc.ClientConn) { v.p.Set(t, c) }
+
+// Tick starts the real cleanup loop; its first iteration runs at once, the second
+// one a day later.
+func (v *VerifC16Pool) Tick() { go v.p.cleanup() }
+
+// Snapshot copies the pool's map under its read lock.
+func (v *VerifC16Pool) Snapshot() map[string]*grpc.ClientConn {
+	v.p.lock.RLock()
+	defer v.p.lock.RUnlock()
+	m := make(map[string]*grpc.ClientConn, len(v.p.connections))
+	for k, c := range v.p.connections {
+		m[k] = c
+	}
+	return m
+}
+
+func VerifC16Lookup(g GrpcProxyInterceptor, ctx context.Context, fullMethod string) (*route.Target, error) {
+	return g.lookup(ctx, fullMethod)
+}
+
+func VerifC16HasTarget(key string, t route.Table) bool { return hasTarget(key, t) }
